@@ -214,7 +214,7 @@ theorem skip_check (cnd els : Expr) (wp c : Nat) (σ : List Val) (sc : List Env)
 /-- **untaken_indep, `a && b`**: if `a` evaluates to `false`, the compiled `a && b` pushes `false`
 and ends with exactly `a`'s foreign-call log — for every `b` whatsoever. -/
 theorem untaken_and (hP : ProgOk S) (n : Nat) (a b : Expr) (env : Env) (log l : Log) (wp c : Nat)
-    (junk base : List Val) (fr : List Env) (K : List Nat) (ha : supE a = true)
+    (junk base : List Val) (fr : List Env) (K : List Nat)
     (hcode : CodeAt S.labels S.m.prog wp (compileExpr S.m.p.structs wp c (.and a b)).code)
     (hdefs : DefsOk S.labels (compileExpr S.m.p.structs wp c (.and a b)).defs)
     (hev : evalExpr S.m.p n env log a = .val (.bool false) l) :
@@ -225,13 +225,13 @@ theorem untaken_and (hP : ProgOk S) (n : Nat) (a b : Expr) (env : Env) (log l : 
     simp only [compileExpr, codeAt_append] at hcode; exact hcode.1.1
   have hdA : DefsOk S.labels (compileExpr S.m.p.structs wp c a).defs := by
     simp only [compileExpr, defsOk_append] at hdefs; exact hdefs.1.1.1
-  have h := (sim_all S hP n).e a env log wp c junk base fr K ha hcA hdA
+  have h := (sim_all S hP n).e a env log wp c junk base fr K (supE_all a) hcA hdA
   rw [hev] at h
   exact Steps.trans h hvia.steps
 
 /-- **untaken_indep, `a || b`**: if `a` evaluates to `true`, the result is `true` with `a`'s log, for every `b` -/
 theorem untaken_or (hP : ProgOk S) (n : Nat) (a b : Expr) (env : Env) (log l : Log) (wp c : Nat)
-    (junk base : List Val) (fr : List Env) (K : List Nat) (ha : supE a = true)
+    (junk base : List Val) (fr : List Env) (K : List Nat)
     (hcode : CodeAt S.labels S.m.prog wp (compileExpr S.m.p.structs wp c (.or a b)).code)
     (hdefs : DefsOk S.labels (compileExpr S.m.p.structs wp c (.or a b)).defs)
     (hev : evalExpr S.m.p n env log a = .val (.bool true) l) :
@@ -242,13 +242,13 @@ theorem untaken_or (hP : ProgOk S) (n : Nat) (a b : Expr) (env : Env) (log l : L
     simp only [compileExpr, codeAt_append] at hcode; exact hcode.1.1.1
   have hdA : DefsOk S.labels (compileExpr S.m.p.structs wp c a).defs := by
     simp only [compileExpr, defsOk_append] at hdefs; exact hdefs.1.1
-  have h := (sim_all S hP n).e a env log wp c junk base fr K ha hcA hdA
+  have h := (sim_all S hP n).e a env log wp c junk base fr K (supE_all a) hcA hdA
   rw [hev] at h
   exact Steps.trans h hvia.steps
 
 /-- **untaken_indep, `a or b`**: if `a` evaluates to `Some v`, the result is `v` with `a`'s log, for every `b` -/
 theorem untaken_coalesce (hP : ProgOk S) (n : Nat) (a b : Expr) (v : Val) (env : Env) (log l : Log) (wp c : Nat)
-    (junk base : List Val) (fr : List Env) (K : List Nat) (ha : supE a = true)
+    (junk base : List Val) (fr : List Env) (K : List Nat)
     (hcode : CodeAt S.labels S.m.prog wp (compileExpr S.m.p.structs wp c (.coalesce a b)).code)
     (hdefs : DefsOk S.labels (compileExpr S.m.p.structs wp c (.coalesce a b)).defs)
     (hev : evalExpr S.m.p n env log a = .val (.some v) l) :
@@ -259,14 +259,14 @@ theorem untaken_coalesce (hP : ProgOk S) (n : Nat) (a b : Expr) (v : Val) (env :
     simp only [compileExpr, codeAt_append] at hcode; exact hcode.1.1.1
   have hdA : DefsOk S.labels (compileExpr S.m.p.structs wp (c + 2) a).defs := by
     simp only [compileExpr, defsOk_append] at hdefs; exact hdefs.1.1
-  have h := (sim_all S hP n).e a env log wp (c + 2) junk base fr K ha hcA hdA
+  have h := (sim_all S hP n).e a env log wp (c + 2) junk base fr K (supE_all a) hcA hdA
   rw [hev] at h
   exact Steps.trans h hvia.steps
 
 /-- **untaken_indep, `if`**: with a true condition the compiled `if` behaves exactly as the then
 branch started after the condition — for every else branch `f` (and symmetrically, `sim_ite`) -/
 theorem untaken_ite_else (hP : ProgOk S) (n : Nat) (cnd t f : Expr) (env : Env) (log l : Log) (wp c : Nat)
-    (junk base : List Val) (fr : List Env) (K : List Nat) (hc : supE cnd = true) (ht : supE t = true)
+    (junk base : List Val) (fr : List Env) (K : List Nat)
     (hcode : CodeAt S.labels S.m.prog wp (compileExpr S.m.p.structs wp c (.ite cnd t f)).code)
     (hdefs : DefsOk S.labels (compileExpr S.m.p.structs wp c (.ite cnd t f)).defs)
     (hev : evalExpr S.m.p n env log cnd = .val (.bool true) l) :
@@ -278,7 +278,7 @@ theorem untaken_ite_else (hP : ProgOk S) (n : Nat) (cnd t f : Expr) (env : Env) 
   simp only [compileExpr, codeAt_append] at hcode'
   have hdefs' := hdefs
   simp only [compileExpr, defsOk_append] at hdefs'
-  have h := (sim_all S hP n).e cnd env log wp (c + 2) junk base fr K hc hcode'.1.1.1.1 hdefs'.1.1.1.1
+  have h := (sim_all S hP n).e cnd env log wp (c + 2) junk base fr K (supE_all cnd) hcode'.1.1.1.1 hdefs'.1.1.1.1
   rw [hev] at h
   have pre := Steps.trans h hvia.steps
   have hcT := hcode'.2
@@ -290,7 +290,7 @@ theorem untaken_ite_else (hP : ProgOk S) (n : Nat) (cnd t f : Expr) (env : Env) 
         (compileExpr S.m.p.structs wp (c + 2) cnd).c f).code.length + 1 := by
     simp only [List.length_append, List.length_cons, List.length_nil]; omega
   rw [e1] at hcT
-  have iht := (sim_all S hP n).e t env l _ _ junk base fr K ht hcT hdefs'.1.2
+  have iht := (sim_all S hP n).e t env l _ _ junk base fr K (supE_all t) hcT hdefs'.1.2
   refine Outcome.of_steps pre (Outcome.cast iht ?_)
   intro v l'; congr 1
   simp only [compileExpr, List.length_append, List.length_cons, List.length_nil]; omega
